@@ -406,6 +406,21 @@ pub mod led_future {
     }
 }
 
+pub mod led_sync {
+    use savefile_derive::savefile_abi_exportable;
+    #[savefile_abi_exportable(version = 0)]
+    pub trait VerifLedger: Sync { fn put(&self, x: u32) -> u32; }
+}
+pub mod led_send {
+    use savefile_derive::savefile_abi_exportable;
+    #[savefile_abi_exportable(version = 0)]
+    pub trait VerifLedger: Send { fn put(&self, x: u32) -> u32; }
+}
+pub mod led_sendsync {
+    use savefile_derive::savefile_abi_exportable;
+    #[savefile_abi_exportable(version = 0)]
+    pub trait VerifLedger: Send + Sync { fn put(&self, x: u32) -> u32; }
+}
 fn ledger_run<T: AbiExportable + ?Sized>(dir: &str) -> bool {
     match catch_unwind(AssertUnwindSafe(|| savefile_abi::verify_compatiblity::<T>(dir))) {
         Ok(r) => r.is_ok(),
@@ -425,11 +440,17 @@ pub fn ledger_files<S: Src>(s: &mut S) {
     let rett: Run = ledger_run::<dyn led1_rettype::VerifLedger>;
     let argt: Run = ledger_run::<dyn led1_argtype::VerifLedger>;
     let fut: Run = ledger_run::<dyn led_future::VerifLedger>;
+    let lsync: Run = ledger_run::<dyn led_sync::VerifLedger>;
+    let lsend: Run = ledger_run::<dyn led_send::VerifLedger>;
+    let lboth: Run = ledger_run::<dyn led_sendsync::VerifLedger>;
     // (sequence of runs, expected outcome of each run)
     let scenarios: Vec<(&str, Vec<(Run, bool)>)> = vec![
         ("unchanged v0 interface, three runs", vec![(e0, true), (e0, true), (e0, true)]),
         ("unchanged v1 interface, three runs", vec![(e1, true), (e1, true), (e1, true)]),
         ("unchanged interface with a boxed-future return and a closure argument", vec![(fut, true), (fut, true), (fut, true)]),
+        ("unchanged interface with a Sync bound", vec![(lsync, true), (lsync, true), (lsync, true)]),
+        ("unchanged interface with a Send bound", vec![(lsend, true), (lsend, true), (lsend, true)]),
+        ("unchanged interface with Send + Sync bounds", vec![(lboth, true), (lboth, true)]),
         ("compatible evolution v0 -> v1 (new versioned field), then unchanged", vec![(e0, true), (e1, true), (e1, true)]),
         ("compatible evolution, then a change that breaks the recorded version 1", vec![(e0, true), (e1, true), (brk1, false)]),
         ("a change that breaks only the newest recorded version", vec![(e1, true), (brk1, false)]),
@@ -650,5 +671,44 @@ pub fn abi_nested<S: Src>(s: &mut S) {
             }
             _ => eat!(conn),
         }
+    }
+}
+
+// ---- C11: concrete pairs of derived types that must NOT be judged layout compatible (the layout facts the derive
+// macro and the hand-written WithSchema impls record in a schema must be the real ones) ---------------------------
+pub mod lay {
+    use savefile_derive::Savefile;
+    #[derive(Savefile)] #[repr(C)] pub struct SamplesArc { pub data: std::sync::Arc<[u32]> }
+    #[derive(Savefile)] #[repr(C)] pub struct SamplesBox { pub data: Box<[u32]> }
+    #[derive(Savefile)] #[repr(C)] pub struct SamplesVec { pub data: Vec<u32> }
+    #[derive(Savefile)] #[repr(C, u8)] pub enum CmdCaller { Move { distance: u32, speed: u32 }, Stop }
+    #[derive(Savefile)] #[repr(C, u8)] pub enum CmdImpl {
+        Move { distance: u32, #[savefile_versions = "0..0"] speed: savefile::AbiRemoved<u32>, #[savefile_versions = "1.."] duration: u32 },
+        Stop,
+    }
+    #[derive(Savefile)] #[repr(C)] pub struct PairA { pub a: u8, pub b: u8, pub c: u16 }
+    #[derive(Savefile)] pub struct PairB { pub a: u8, pub b: u8, pub c: u16 }
+    #[derive(Savefile)] #[repr(C)] pub struct Same1 { pub a: u32, pub b: u32 }
+    #[derive(Savefile)] #[repr(C)] pub struct Same2 { pub a: u32, pub b: u32 }
+}
+pub fn layout_type_pairs<S: Src>(s: &mut S) {
+    use savefile::get_schema;
+    let v = s.below(2) as u32;
+    let chk = |a: savefile::Schema, b: savefile::Schema, what: &str| {
+        assert!(!a.layout_compatible(&b) && !b.layout_compatible(&a), "C11: {} must not be judged layout compatible", what);
+    };
+    match s.below(6) {
+        0 => chk(get_schema::<lay::SamplesArc>(0), get_schema::<lay::SamplesBox>(0), "a struct holding Arc<[u32]> and one holding Box<[u32]> (the Arc's data pointer points at the reference counts)"),
+        1 => chk(get_schema::<lay::SamplesArc>(0), get_schema::<lay::SamplesVec>(0), "a struct holding Arc<[u32]> and one holding Vec<u32>"),
+        2 => chk(get_schema::<lay::SamplesBox>(0), get_schema::<lay::SamplesVec>(0), "a struct holding Box<[u32]> and one holding Vec<u32>"),
+        3 => { let _ = v; chk(get_schema::<lay::CmdCaller>(0), get_schema::<lay::CmdImpl>(0), "an enum whose variant holds a live u32 and (at version 0) one whose variant holds an AbiRemoved placeholder at that position") }
+        4 => {
+            // same fields, but only one side has a guaranteed (repr(C)) field order: compatible only if the offsets really agree
+            let (a, b) = (get_schema::<lay::PairA>(0), get_schema::<lay::PairB>(0));
+            let off = |x: &lay::PairB| (&x.a as *const u8 as usize - x as *const lay::PairB as usize, &x.b as *const u8 as usize - x as *const lay::PairB as usize, &x.c as *const u16 as usize - x as *const lay::PairB as usize);
+            let same_offsets = off(&lay::PairB { a: 0, b: 0, c: 0 }) == (0, 1, 2);
+            if a.layout_compatible(&b) { assert!(same_offsets, "C11: structs whose field offsets differ must not be judged layout compatible"); }
+        }
+        _ => { let _ = get_schema::<lay::Same1>(0).layout_compatible(&get_schema::<lay::Same2>(0)); }
     }
 }
